@@ -583,7 +583,10 @@ class DeepDiff(ResultDict, SerializationMixin, DistanceMixin, DeepDiffProtocol, 
             # an Enum key stands for its value, which is then cleaned like any other key
             clean_key = key.value if self.use_enum_value and isinstance(key, Enum) else key
             if self.ignore_string_type_changes and isinstance(clean_key, bytes):
-                clean_key = clean_key.decode('utf-8')
+                try:
+                    clean_key = clean_key.decode('utf-8')
+                except UnicodeDecodeError:
+                    pass  # not a text: the key stands for itself
             elif isinstance(clean_key, numbers) and self.significant_digits is not None:
                 # without significant digits (and so without ignore_numeric_type_changes) a number key stays as it is
                 type_ = "number" if self.ignore_numeric_type_changes else clean_key.__class__.__name__
